@@ -37,6 +37,12 @@ func aolRules(p *Prog, r *Report, clause string, want func(tag string) bool) *ao
 			r.Fail(kp("FAMILY", "aol#"+pr), "accessor family: one prefix <-> one key type", "x/aol/keeper", pr)
 		}
 		for _, so := range m.rawOps {
+			// a read that is not accessor-shaped (a lookup inside one topic, a range, a count) changes nothing: the append-only and
+			// authorization arguments are about writes, and the guards they rely on are the accessor calls checked below
+			if so.Op == "Get" || so.Op == "Has" || so.Op == "Iterator" || so.Op == "ReverseIterator" {
+				r.Note("read-only store operation outside the accessor shape: %s %s (%s)", FuncName(so.Fn), so.Op, p.Pos(so.Instr.Pos()))
+				continue
+			}
 			r.Undecided(kp("FAMILY", "aol-store-op-outside-accessor:"+FuncName(so.Fn)+"#"+so.Op),
 				"every operation on the aol store goes through a single-operation accessor keyed by compkey.MustEncode(&key) under a prefix variable",
 				p.Pos(so.Instr.Pos()), fmt.Sprintf("%s performs %s on the aol store (prefix %q, key %s) outside the accessor shape; its effect on the append-only/authorization argument cannot be classified",
@@ -52,7 +58,7 @@ func aolRules(p *Prog, r *Report, clause string, want func(tag string) bool) *ao
 				n++
 				r.OK(kp("FAMILY", FuncName(a.Fn)), "accessor family agreement", p.FnPos(a.Fn),
 					fmt.Sprintf("%s %s under %s with key type %s", a.Op, f, a.Prefix, a.KeyType))
-				if a.Op == "Iterator" {
+				if a.Op == "Iterator" && aolOnExportPath(p, a.Fn) {
 					// list accessors return every entry under the prefix: the appends run on every iteration
 					checkUnconditionalLoopEffect(p, r, kp("LOOP", FuncName(a.Fn)+"#every-entry-listed"), a.Fn, func(in ssa.Instruction) bool {
 						c, ok := in.(*ssa.Call)
@@ -552,7 +558,7 @@ func checkAolListAccessorsWholeFamily(p *Prog, r *Report, kp func(string, string
 	n := 0
 	for _, fam := range append([]string{"Owner", "Topic", "Writer", "Record"}, m.extraFamilies()...) {
 		for _, a := range m.byFamily[fam] {
-			if a.Op != "Iterator" {
+			if a.Op != "Iterator" || !aolOnExportPath(p, a.Fn) {
 				continue
 			}
 			cc := a.SO.Instr.Common()
@@ -607,4 +613,21 @@ func checkAolListAccessorsWholeFamily(p *Prog, r *Report, kp func(string, string
 			"both or neither", fmt.Sprintf("%s calls %s(%s, %s): the walk is not confined to the entries that share the bounded side's prefix — the first entry it meets may belong to another topic or owner", FuncName(so.Fn), so.Op, o.Of(args[0]), o.Of(args[1])))
 	}
 	r.Count("aol-explicit-range-iterations", n2)
+}
+
+
+var aolExportReach map[*ssa.Function]bool
+
+// aolOnExportPath: fn is reachable from x/aol's ExportGenesis — a list accessor there must return every entry of its family. (A
+// lookup that iterates part of a family on purpose — the records of one topic, a range of offsets, capped — is a query helper.)
+func aolOnExportPath(p *Prog, fn *ssa.Function) bool {
+	if aolExportReach == nil {
+		aolExportReach = map[*ssa.Function]bool{}
+		if e := p.Func(Rel("x/aol"), "ExportGenesis"); e != nil {
+			for _, g := range p.ReachFrom([]*ssa.Function{e}, func(f *ssa.Function) bool { return InModule(f) && !p.IsGenerated(f) }).Order {
+				aolExportReach[g] = true
+			}
+		}
+	}
+	return aolExportReach[fn]
 }
